@@ -1040,6 +1040,22 @@ class FilesFamily(IcalFamily):
             slices = []
             for a, b in case["wins"]:
                 slices.append([a, b, evs(m[a:b]), evs(m2[a:b])])
+            # written again after an occurrence was cancelled: the second file must carry the
+            # cancellation (the timeline object has been written before; nothing may be remembered
+            # from that)
+            a0, b0 = case["wins"][0]
+            occs = [o for o in m.fetch(a0, b0) if getattr(o, "recurring_event_id", None)]
+            if occs:
+                victim = occs[len(occs) // 2]
+                span = [victim.start, victim.end]
+                before = sum(1 for o in m2.fetch(a0, b0) if [o.start, o.end] == span)
+                if before and m.remove(victim)[0].success:
+                    timeline_to_file(m, path)
+                    m4 = file_to_timeline(path)
+                    after = sum(1 for o in m4.fetch(a0, b0) if [o.start, o.end] == span)
+                    if after != before - 1:
+                        return {"err": f"an occurrence cancelled after the first write ({span}) is in the reloaded "
+                                       f"timeline {after} time(s) after the second write, {before} time(s) before"}
             for r in items:
                 r.pop("_obj", None)
             return dict(items=items, slices=slices, reloaded=reloaded)
